@@ -390,6 +390,9 @@ func (s *httpServer) nodeHandler(w http.ResponseWriter, req *http.Request, ps ht
 	var totalMessages int64
 	for _, ts := range topicStats {
 		for _, cs := range ts.Channels {
+			if cs == nil {
+				continue
+			}
 			totalClients += int64(len(cs.Clients))
 		}
 		totalMessages += ts.MessageCount
